@@ -37,6 +37,7 @@ RULE += (' Also: call objects created first and started later (a scheduling poin
 RULE += (' Also: cache_discard operations in the quiescent epilogue.')
 RULE += (' Also: calls spelled with a keyword (f(2) and f(2, tag=1) are different keys); functions failing with a BaseException that is no Exception.')
 RULE += (' Also: argument patterns with equal hashes (negative integers) are different keys; a call that started after the last clear and finished is stored.')
+RULE += (" Also: a one-argument call f(hash((a, b))) next to the two-argument call f(a, b): equal hashes, different keys.")
 ASSUMPTIONS = ["cache contents during concurrency are not pinned, only constrained existentially at quiescence",
                "the OrderedDict LRU model is the one cross-validated against functools.lru_cache by C10"]
 EXHAUSTIVE_SUBSPACES = 'every scenario counted in scenarios_explored_exhaustively had ALL its interleavings executed'
@@ -44,6 +45,11 @@ EXHAUSTIVE = {"quick": False, "thorough": False}
 N_SCEN = {"quick": 1200, "thorough": 40000}
 DFS_LIMIT = {"quick": 1200, "thorough": 30000}
 RANDOM_RUNS = {"quick": 50, "thorough": 300}
+
+
+# pairs (a, b) of small integers whose tuple hash is itself the hash of an integer: f(a, b) and f(hash((a, b))) are unequal
+# argument patterns with equal hashes (about a quarter of all pairs are; b > 1 keeps them apart from the other spellings)
+HASH_PAIRS = [(a, b) for a in range(40) for b in range(2, 6) if hash(hash((a, b))) == hash((a, b))][:8]
 
 
 def cases(tier, seed, shard, nshards):
@@ -72,6 +78,9 @@ def cases(tier, seed, shard, nshards):
                "exc": rng.choice(PLANNED_NAMES), "falsy_value": rng.choice([None, None, "none", "none", "zero", "empty", "opaque"]),
                # calls spelled with a keyword: key 2j+1 is the call f(2j, tag=1) - same positional argument as key 2j
                "kwform": rng.random() < 0.3,
+               # calls whose keys have EQUAL HASHES without being equal: key 2j+1 is the two-argument call f(a, b) and key 2j
+               # the one-argument call f(hash((a, b))) (used when the keyword form is not)
+               "hashform": rng.random() < 0.25,
                "epilogue": [(["discard", rng.randrange(nkeys + 1)] if rng.random() < 0.2 else rng.randrange(nkeys + 1))
                             for _ in range(rng.randint(3, 7))],
                "precreate": rng.random() < 0.3}
@@ -106,6 +115,11 @@ def execute(case, choose, cancel_at=None):
         return ("v", key, rid)
 
     kwform = bool(case.get("kwform"))
+    hashform = bool(case.get("hashform")) and not kwform
+    hash_rev = {}
+    for j, pair in enumerate(HASH_PAIRS):
+        hash_rev[pair] = 2 * j + 1
+        hash_rev[(hash(pair), 0)] = 2 * j
 
     def pattern(key):
         """How the logical key is spelled as a call: positionally - or, for odd keys in the keyword form, as the
@@ -114,6 +128,9 @@ def execute(case, choose, cancel_at=None):
             # (the positional argument is NEGATIVE: hash(-1) == hash(-2), so the calls for keys 1 and 3 - f(-1, tag=1) and
             # f(-2, tag=1) - are unequal argument patterns with equal hashes)
             return ((-(key // 2) - 1,), {"tag": 1} if key % 2 else {})
+        if hashform and isinstance(key, int) and 0 <= key < 2 * len(HASH_PAIRS):
+            pair = HASH_PAIRS[key // 2]
+            return (pair if key % 2 else (hash(pair),), {})
         return ((key,), {})
 
     def call_of(key):
@@ -130,6 +147,8 @@ def execute(case, choose, cancel_at=None):
 
     async def wrapped(key, tag=0):
         key = (-key - 1) * 2 + tag if kwform and isinstance(key, int) else key
+        if hashform and (key, tag) in hash_rev:
+            key = hash_rev[(key, tag)]
         t_start = next(clock)
         state["runs"] += 1
         rid = state["runs"]
